@@ -484,6 +484,7 @@ func checkMain(args []string) {
 	writeEvidence(evPath, *prop, *tier, seed, reports, frs, ps, prog, wall, violations, append(undecided, errs...), &evCounts{claimed: claimed, discharged: discharged, known: knownLines, base: base, bounded: boundedReports})
 	fmt.Printf("%s %s: %d obligations claimed, %d discharged, %d known findings, %d violations, %.1fs\n", *prop, *tier, claimed, discharged, len(knownLines), violations, wall)
 	if violations > 0 {
+		os.RemoveAll(dir) // os.Exit skips the deferred removal
 		os.Exit(1)
 	}
 }
